@@ -160,8 +160,13 @@ def run(rep, tier):
                 continue
             ca, cl = const_int(a), const_int(l)
             where = repo.where(em, node)
-            # R2
-            if ca == 0 and (cl is None or cl != 0) and fi is not None and i < fi:
+            # R2 (lnotab semantics only; in the 3.10 range format a zero-length pair *precedes* the range it prepares)
+            if cname == "Code310":
+                if ca == 0 and cl not in (None, 0) and fi is not None and i > fi:
+                    rep.ob("R2", construct, "pair(%s,%s)-after-range-pair" % (ast.unparse(a), ast.unparse(l)), False,
+                           expected="zero-length line-delta pairs before the pair that carries the range", derived="emitted at %s after the range pair" % where, where=where,
+                           msg="a (0, %s) pair after the range pair changes the line of the *next* range, not of this one" % ast.unparse(l))
+            elif ca == 0 and (cl is None or cl != 0) and fi is not None and i < fi:
                 rep.ob("R2", construct, "pair(%s,%s)-before-address-pair" % (ast.unparse(a), ast.unparse(l)), False,
                        expected="line-only continuation pairs after the pair that carries the address increment", derived="emitted at %s before the (address, line) pair" % where,
                        where=where, msg="a (0, %s) pair emitted before the address-carrying pair makes the decoder add those lines to the *previous* offset" % ast.unparse(l))
@@ -229,11 +234,13 @@ def run(rep, tier):
     T = tables()
     nseg = 0
     for mod, cname in CLASSES:
-        if cname == "Code310":
-            continue  # a different format (3.10 line table); its encoder has recorded findings of its own
         cq = "%s.%s" % (mod, cname)
         eq = repo.method(cq, "encode_lineno_tab")
         em, efn = repo.functions[eq]
+        if cname == "Code310":
+            # 3.10 line table: (length, signed delta) ranges; -128 is reserved for "no line"
+            nseg += conservation_rule(rep, T, mod, cname, "%s (encoder of %s)" % (eq, cname), repo.where(em, efn), signed_lines=True, ranges=True, min_signed=-127)
+            continue
         nseg += conservation_rule(rep, T, mod, cname, "%s (encoder of %s)" % (eq, cname), repo.where(em, efn), signed_lines=SERVES[cname][1] >= (3, 6))
     rep.floor("conservation checks (segments and loop iterations)", nseg, 12)
     freeze_discipline(rep, repo, "R9")
@@ -366,7 +373,7 @@ def _zero(t):
     return (isinstance(t, int) and not isinstance(t, bool) and t == 0) or repr(t) == "0"
 
 
-def conservation_rule(rep, T, mod, cname, construct, where, signed_lines=False):
+def conservation_rule(rep, T, mod, cname, construct, where, signed_lines=False, ranges=False, min_signed=-128):
     """R8.  Per table entry the address bytes emitted add up to the advance of the previous-offset tracker and the line bytes to
     the advance of the previous-line tracker.  Decided as an invariant: emitted + residual is unchanged by every straight-line
     segment and by one iteration of every chunking loop (terms from the specialiser's one-iteration summaries)."""
@@ -378,15 +385,19 @@ def conservation_rule(rep, T, mod, cname, construct, where, signed_lines=False):
     if not isinstance(f, FuncRef):
         raise AnalysisError("anchor vanished: %s.%s.encode_lineno_tab" % (mod, cname))
     me = Instance(C)
-    me.attrs.update(co_lnotab=Sym("table", "list"), co_linetable=Sym("table", "list"), co_firstlineno=Sym("first", "int"))
+    me.attrs.update(co_lnotab=Sym("table", "list"), co_linetable=Sym("table", "list"), co_firstlineno=Sym("first", "int"), co_code=Sym("cocode", "bytes"))
     sp = Spec(F)
     sp.run(f, [me])
-    outer = [e.args[3] for e in sp.effects if e.kind == "loop"]
+    outer = [e.args[3] for e in sp.effects if e.kind == "loop" and show(e.args[3].cond).startswith("iter-more(")]
     if len(outer) != 1:
         raise AnalysisError("%s: expected one loop over the table, found %d" % (construct, len(outer)))
     L0 = outer[0]
     inner = [e.args[3] for e in L0.effects if e.kind == "loop"]
-    elem = Sym(L0.tag + ":elem")
+    if ranges:
+        # 3.10 ranges: the loop walks (entry, next entry) pairs; an entry's range ends where the next one starts
+        elem, nxt = Sym(L0.tag + ".0:elem"), Sym(L0.tag + ".1:elem")
+    else:
+        elem, nxt = Sym(L0.tag + ":elem"), None
     item0, item1 = repr(Op("item", elem, 0)), repr(Op("item", elem, 1))
     lv = [(g, l) for g, l in leaves(L0.out) if isinstance(l, (Fall, Cont))]
     if not lv:
@@ -396,15 +407,18 @@ def conservation_rule(rep, T, mod, cname, construct, where, signed_lines=False):
         return Sym("%s:%s" % (L0.tag, n))
     problems = []
     nchecks = 0
+    rl_seen = None
     for g, l in lv:
         env = l.env
         accs = [n for n, v in env.items() if isinstance(n, str) and not n.startswith("__") and ("concat" in show(v) or "co_l" in n) and n in L0.pre and
-                isinstance(L0.pre[n], (str, bytes, bytearray))]
+                (isinstance(L0.pre[n], (str, bytes, bytearray)) or "b''" in show(L0.pre[n])) and repr(v) != repr(L0.pre[n])]
         if len(accs) != 1:
             raise AnalysisError("%s: accumulator not identified (%s)" % (construct, accs))
         acc = accs[0]
         pa = [n for n, v in env.items() if isinstance(n, str) and n in L0.pre and repr(v) == item0 and n not in ("offset",)]
         pl = [n for n, v in env.items() if isinstance(n, str) and n in L0.pre and repr(v) == item1]
+        if ranges and pl:
+            pa = ["<next start - this start>"]
         path = " and ".join(_notag(show(x)) for x in g if not (isinstance(x, Op) and x.op == "in-loop")) or "main path"
         if not pa or not pl:
             # a path that leaves the trackers alone must emit nothing (the entry is skipped as a whole)
@@ -418,7 +432,7 @@ def conservation_rule(rep, T, mod, cname, construct, where, signed_lines=False):
                 if items or not unchanged:
                     problems.append(("skip-path", path, "emits %s while the trackers %s" % (items, "stay" if unchanged else "move")))
             continue
-        Ta = add(env[pa[0]], head(pa[0]), -1)
+        Ta = add(Op("item", nxt, 0), Op("item", elem, 0), -1) if ranges else add(env[pa[0]], head(pa[0]), -1)
         Tl = add(env[pl[0]], head(pl[0]), -1)
         # checkpoints: (base accumulator symbol, env at the end of the segment, accumulator term at the end of the segment)
         segs = []
@@ -430,6 +444,8 @@ def conservation_rule(rep, T, mod, cname, construct, where, signed_lines=False):
         ra = rl = None
         try:
             for si, (b, e_end_raw, acc_end, ls) in enumerate(segs):
+                if rl is not None:
+                    rl_seen = rl
                 for cond, term in _cases(acc_end):
                     sa, sl = _sums(_pieces(term, b), signed_lines)
                     nchecks += 1
@@ -504,7 +520,8 @@ def conservation_rule(rep, T, mod, cname, construct, where, signed_lines=False):
             ub, lb = None, None
             for ls in inner:
                 c = ls.cond
-                if isinstance(c, Op) and c.op in ("GtE", "Gt", "Lt", "LtE") and isinstance(c.args[1], int) and isinstance(c.args[0], Sym):
+                if isinstance(c, Op) and c.op in ("GtE", "Gt", "Lt", "LtE") and isinstance(c.args[1], int) and isinstance(c.args[0], Sym) and \
+                        (rl_seen is None or c.args[0].name.endswith(":" + rl_seen)):
                     k_ = c.args[1]
                     if c.op == "GtE":
                         ub = k_ - 1 if ub is None else min(ub, k_ - 1)
@@ -514,10 +531,10 @@ def conservation_rule(rep, T, mod, cname, construct, where, signed_lines=False):
                         lb = k_ if lb is None else max(lb, k_)
                     elif c.op == "LtE":
                         lb = k_ + 1 if lb is None else max(lb, k_ + 1)
-            okr = ub is not None and ub <= 127 and lb is not None and lb >= -128
+            okr = ub is not None and ub <= 127 and lb is not None and lb >= min_signed
             nchecks += 1
             if not okr:
-                problems.append(("line", "final pair", "the line byte is written as v & 0xFF but the chunking loops only establish %s <= v <= %s; a signed byte holds -128..127" % (lb, ub)))
+                problems.append(("line", "final pair", "the line byte is written as v & 0xFF but the chunking loops only establish %s <= v <= %s; a signed byte holds %d..127" % (lb, ub, min_signed)))
     seen = set()
     for kind, pth, what in problems:
         key = _notag("conservation:%s:%s" % (kind, pth))
